@@ -185,3 +185,47 @@ func r1ShortNote(s string) string {
 
 	return fmt.Sprintf("%s …[%d bytes]… %s", s[:i], j-i, s[j:])
 }
+
+// r1DenyAllowLine: a DNS-applicable rule with `$denyallow`: wide patterns (`*`, a TLD, a parent domain) whose
+// reach is cut by the listed names; d is the name the line is about.
+func r1DenyAllowLine(r *rng, names []string, d string) string {
+	parent := d
+	if i := strings.IndexByte(d, '.'); i > 0 && i+1 < len(d) {
+		parent = d[i+1:]
+	}
+	var pat string
+	switch r.n(6) {
+	case 0, 1:
+		pat = "*"
+	case 2:
+		pat = "||" + d + "^"
+	case 3:
+		pat = "||" + parent + "^"
+	case 4:
+		pat = "." + parent + "^"
+	default:
+		pat = pick(r, []string{"", "|", "||", "://"}) + d
+	}
+	var da []string
+	for k := 1 + r.n(3); k > 0; k-- {
+		x := pick(r, names)
+		switch r.n(5) {
+		case 0:
+			x = "sub." + x
+		case 1:
+			x = d
+		case 2:
+			x = pick(r, []string{"www.", "a."}) + d
+		}
+		da = append(da, x)
+	}
+	t := pat + "$denyallow=" + strings.Join(da, "|")
+	if r.chance(1, 4) {
+		t += pick(r, []string{",important", ",dnstype=A", ",dnstype=~AAAA", ",client=127.0.0.1", ",ctag=device_pc", ",badfilter"})
+	}
+	if r.chance(1, 4) {
+		t = "@@" + t
+	}
+
+	return t
+}
